@@ -449,74 +449,87 @@ func runC04(c *core.Ctx) {
 	}
 
 	// ---- R04.8 Go-side builtins act on the calling instance
-	if ep := c.Pkg("internal/engine/wazevo"); ep != nil {
-		einfo := ep.TypesInfo
-		api := c.Pkg("internal/engine/wazevo/wazevoapi")
-		var loopFn *ast.FuncDecl
-		var sw *ast.SwitchStmt
-		if api != nil {
-			if ok := api.Types.Scope().Lookup("ExitCodeOK"); ok != nil {
-				for _, r := range core.FindCaseClauses(ep, ok) {
-					if loopFn == nil || len(r.Switch.Body.List) > len(sw.Body.List) {
-						loopFn, sw = r.Fn, r.Switch
-					}
+	checkBuiltinsActOnCaller(c, "R04.8")
+}
+
+// checkBuiltinsActOnCaller: in the arms of the Go-side exit-code loop every access to per-instance state goes through
+// the instance returned by callerModuleInstance(), never through the entry instance (the module whose export was called).
+func checkBuiltinsActOnCaller(c *core.Ctx, rule string) {
+	ep := c.Pkg("internal/engine/wazevo")
+	if ep == nil {
+		return
+	}
+	einfo := ep.TypesInfo
+	api := c.Pkg("internal/engine/wazevo/wazevoapi")
+	var loopFn *ast.FuncDecl
+	var sw *ast.SwitchStmt
+	if api != nil {
+		if ok := api.Types.Scope().Lookup("ExitCodeOK"); ok != nil {
+			for _, r := range core.FindCaseClauses(ep, ok) {
+				if loopFn == nil || len(r.Switch.Body.List) > len(sw.Body.List) {
+					loopFn, sw = r.Fn, r.Switch
 				}
 			}
-		}
-		if loopFn == nil {
-			c.Undecided("R04.8", "exit-code loop", 0, "the Go-side exit-code dispatch was not found")
-		} else {
-			// locals of type *wasm.ModuleInstance defined outside the switch (the entry instance)
-			entry := map[types.Object]bool{}
-			ast.Inspect(loopFn.Body, func(n ast.Node) bool {
-				as, ok := n.(*ast.AssignStmt)
-				if !ok || as.Pos() > sw.Pos() {
-					return true
-				}
-				for i, l := range as.Lhs {
-					if id, ok := l.(*ast.Ident); ok && i < len(as.Rhs) {
-						if o := einfo.Defs[id]; o != nil && core.IsNamed(o.Type(), core.Module+"/internal/wasm", "ModuleInstance") {
-							if call, isCall := as.Rhs[i].(*ast.CallExpr); !isCall || !strings.Contains(core.ExprStr(call.Fun), "callerModuleInstance") {
-								entry[o] = true
-							}
-						}
-					}
-				}
-				return true
-			})
-			perInstance := map[string]bool{"MemoryInstance": true, "Tables": true, "Globals": true, "Engine": true, "ElementInstances": true, "DataInstances": true, "Source": true}
-			var bad []string
-			n := 0
-			for _, cs := range sw.Body.List {
-				cc := cs.(*ast.CaseClause)
-				ast.Inspect(cc, func(m ast.Node) bool {
-					se, ok := m.(*ast.SelectorExpr)
-					if !ok || !perInstance[se.Sel.Name] {
-						return true
-					}
-					if f := core.FieldOf(einfo, se); f == nil {
-						return true
-					}
-					id, ok := ast.Unparen(se.X).(*ast.Ident)
-					if !ok || !core.IsNamed(einfo.Types[se.X].Type, core.Module+"/internal/wasm", "ModuleInstance") {
-						return true
-					}
-					n++
-					if entry[einfo.Uses[id]] {
-						lab := ""
-						if len(cc.List) > 0 {
-							lab = core.ExprStr(cc.List[0])
-						}
-						bad = append(bad, fmt.Sprintf("arm %s uses the entry instance's %s at %s", lab, se.Sel.Name, c.Pos(se.Pos())))
-					}
-					return true
-				})
-			}
-			sort.Strings(bad)
-			c.Check(len(bad) == 0 && n >= 5, "R04.8", "builtins act on the calling instance in "+core.FuncName(ep, loopFn), sw.Pos(), fmt.Sprintf("%d per-instance accesses in the exit-code arms, all through callerModuleInstance()", n),
-				"a Go-side builtin acts on the instance whose export was called from Go instead of the instance executing the instruction (they differ after a cross-module call): "+strings.Join(bad, "; "))
 		}
 	}
+	if loopFn == nil {
+		c.Undecided(rule, "exit-code loop", 0, "the Go-side exit-code dispatch was not found")
+		return
+	}
+	isCallerCall := func(e ast.Expr) bool {
+		call, ok := ast.Unparen(e).(*ast.CallExpr)
+		return ok && strings.Contains(core.ExprStr(call.Fun), "callerModuleInstance")
+	}
+	perInstance := map[string]bool{"MemoryInstance": true, "Tables": true, "Globals": true, "Engine": true, "ElementInstances": true, "DataInstances": true, "Source": true}
+	var bad []string
+	n := 0
+	for _, cs := range sw.Body.List {
+		cc := cs.(*ast.CaseClause)
+		// identifiers bound to the calling instance inside this arm
+		caller := map[types.Object]bool{}
+		ast.Inspect(cc, func(m ast.Node) bool {
+			if as, ok := m.(*ast.AssignStmt); ok {
+				for i, l := range as.Lhs {
+					if id, ok := l.(*ast.Ident); ok && i < len(as.Rhs) && isCallerCall(as.Rhs[i]) {
+						if o := einfo.Defs[id]; o != nil {
+							caller[o] = true
+						} else if o := einfo.Uses[id]; o != nil {
+							caller[o] = true
+						}
+					}
+				}
+			}
+			return true
+		})
+		ast.Inspect(cc, func(m ast.Node) bool {
+			se, ok := m.(*ast.SelectorExpr)
+			if !ok || !perInstance[se.Sel.Name] {
+				return true
+			}
+			if f := core.FieldOf(einfo, se); f == nil {
+				return true
+			}
+			if !core.IsNamed(einfo.Types[se.X].Type, core.Module+"/internal/wasm", "ModuleInstance") {
+				return true
+			}
+			n++
+			okX := isCallerCall(se.X)
+			if id, isID := ast.Unparen(se.X).(*ast.Ident); isID && caller[einfo.Uses[id]] {
+				okX = true
+			}
+			if !okX {
+				lab := ""
+				if len(cc.List) > 0 {
+					lab = core.ExprStr(cc.List[0])
+				}
+				bad = append(bad, fmt.Sprintf("arm %s uses `%s` at %s", lab, core.ExprStr(se), c.Pos(se.Pos())))
+			}
+			return true
+		})
+	}
+	sort.Strings(bad)
+	c.Check(len(bad) == 0 && n >= 5, rule, "builtins act on the calling instance in "+core.FuncName(ep, loopFn), sw.Pos(), fmt.Sprintf("%d per-instance accesses in the exit-code arms, all through callerModuleInstance()", n),
+		"a Go-side builtin acts on an instance other than the one executing the instruction – the instance whose export was called from Go, reached through the call engine – and they differ after a cross-module call: "+strings.Join(bad, "; "))
 }
 
 // ---- R04.2 (relation) memory sharedness must match exactly ----
